@@ -22,8 +22,21 @@ What is mirrored, method by method (Go name in backticks):
   a registration error while parsing aborts the load, one while running is handed to
   `ThrowControl` and stops the program.
 
+* the routes by which *script code* running on a VM defines things (every one executes
+  through `LoadAndRun` of a script file, i.e. binds the TempVM's parser first): `eval()`
+  (`std/php/eval.go` → `VM.EvalCode`: parser clone of the base, run in the caller's context;
+  refused on a TempVM), `include` / `require` (`node.IncludeCore`: cache test, existence
+  test, `LoadAndRun` on the context's VM), a function statement executed at run time
+  (nested / conditional declaration: `ctx.GetVM().AddFunc`), `spl_autoload_register`
+  (process-wide callback list, consulted by `LoadClass` when the class path has no file;
+  the callback runs on the *loading* VM), a class needed by a script (`new`, `extends`,
+  `use` of a trait, static call: `GetOrLoadClass` of the VM the code is parsed / run on),
+  `define()` (constants are shared by design), `class_alias` (declares nothing on the pinned
+  tree), and the routes that define nothing at all (anonymous classes, closures).
+
 Environment / not modelled: file contents and class-path lookup (`Disk`), Unicode
-case folding (`Disk.fold`), `spl_autoload` callbacks (assumed none), `extends` /
+case folding (`Disk.fold`), the bodies of the autoload callbacks (`Disk.cbs`: which file a
+callback includes for which name; every callback ends in `return false`), `extends` /
 `implements` of the loaded classes (files declare plain classes), names are non-empty
 and do not start with a backslash, `data.CompileMode = false`.
 -/
@@ -56,6 +69,9 @@ structure Disk where
   find : Name → Option File
   /-- canonical representative under `strings.EqualFold` -/
   fold : Name → Name
+  /-- the autoload callbacks a script can hand to `spl_autoload_register`: callback `cb`
+  is `function($c) { if ($c === n) include <(cbs[cb]) n>; …; return false; }` -/
+  cbs : List (Name → Option File) := []
 
 /-- a Go `map[string]Stmt`: newest binding first, lookup returns the newest. -/
 abbrev Tbl := List (Name × Src)
@@ -72,6 +88,11 @@ structure Base where
   cache : List File := []
   /-- number of controls handed to `ThrowControl` (shared by design) -/
   thrown : Nat := 0
+  /-- `parser.autoload`: the registered autoload callbacks, in registration order
+  (a package-level list: shared by the base, every TempVM and every later request) -/
+  autoload : List Nat := []
+  /-- constants (`define`): shared by design -/
+  consts : List Name := []
 deriving Repr
 
 structure Temp where
@@ -238,10 +259,46 @@ def loadAndRun (d : Disk) (w : World) (v : VMId) (f : File) : World × Bool :=
 def parseFile (d : Disk) (w : World) (v : VMId) (f : File) : World × Bool :=
   parseAndRun d (bindParser w v) v f
 
+/-- `node.IncludeCore` reached from code running on `v`: `some true` = nothing more to do /
+loaded, `some false` = the load raised, `none` = no such file (nothing happens, not even
+the cache entry). -/
+def includeFile (d : Disk) (w : World) (v : VMId) (f : File) : World × Option Bool :=
+  if w.base.cache.contains f then (w, some true)
+  else
+    match d.content f with
+    | none => (w, none)
+    | some _ => let r := loadAndRun d w v f; (r.1, some r.2)
+
+/-- the file callback `cb` includes when asked for `n` -/
+def cbFile (d : Disk) (cb : Nat) (n : Name) : Option File :=
+  match d.cbs[cb]? with
+  | some a => a n
+  | none => none
+
+/-- one callback, called on VM `v` for `n` -/
+def runCallback (d : Disk) (w : World) (v : VMId) (cb : Nat) (n : Name) : World × Option Bool :=
+  match cbFile d cb n with
+  | some f => includeFile d w v f
+  | none => (w, some true)
+
+/-- `parser.CallAutoLoad(name, parser.vm.CreateContext(nil))`: the callbacks run, in
+registration order, on the VM that is loading; after each one the VM is asked for the class /
+interface. `some true` = defined now, `some false` = nobody defined it, `none` = a callback
+raised (the error of an included file that failed to load). -/
+def callAutoLoad (d : Disk) (v : VMId) (n : Name) : World → List Nat → World × Option Bool
+  | w, [] => (w, some false)
+  | w, cb :: cbs =>
+    let r := runCallback d w v cb n
+    if r.2 = some false then (r.1, none)
+    else if (getClass d r.1 v n).isSome || (getInterface r.1 v n).isSome then (r.1, some true)
+    else callAutoLoad d v n r.1 cbs
+
 /-- `DefaultClassPathManager.LoadClass(name, parser)` with `parser.vm = v` -/
 def loadClass (d : Disk) (w : World) (v : VMId) (n : Name) : World × Bool :=
   match d.find n with
-  | none => (w, false)
+  | none =>
+    let r := callAutoLoad d v n w w.base.autoload
+    (r.1, r.2 == some true)
   | some f =>
     if w.base.cache.contains f && ((getClass d w v n).isSome || (getInterface w v n).isSome) then (w, true)
     else
@@ -324,6 +381,72 @@ def tempLoadPkg (d : Disk) (w : World) (i : Nat) (n : Name) : World × Res :=
           if r2.2 then (r2.1, .ok ((r2.1.temps i).pkg n)) else (r2.1, .err)
     | _ => r
 
+/-! ### definition routes of script code running on a VM
+
+Every one of these is a script file run through `LoadAndRun` of the VM (`PrepareParse` binds
+the TempVM's parser first); an uncaught error ends the script through `ThrowControl`. -/
+
+/-- `eval('<the declarations of unit u>')`. `EvalFunction.Call` asks for a `*runtime.VM`:
+on a TempVM it raises and nothing is parsed. On the base: `VM.EvalCode` parses with a clone
+of the base's parser (classes / interfaces register; the first error is raised to the
+caller) and runs the program in the caller's context. -/
+def scriptEval (d : Disk) (w : World) (v : VMId) (u : File) (id : Nat) : World :=
+  let w := bindParser w v
+  match v with
+  | .temp _ => throwControl w
+  | .base =>
+    match d.content u with
+    | none => w
+    | some decls =>
+      let r := parsePhase .base (.stub id) w decls
+      if r.2 then runPhase .base (.stub id) r.1 decls else throwControl r.1
+
+/-- `include f` / `require f` (also `_once`, relative or absolute path) -/
+def scriptInclude (d : Disk) (w : World) (v : VMId) (f : File) (req : Bool) : World :=
+  let r := includeFile d (bindParser w v) v f
+  match r.2 with
+  | some true => r.1
+  | some false => throwControl r.1
+  | none => if req then throwControl r.1 else r.1
+
+/-- a function statement executed at run time (`function o() { function n() {} } o();`,
+`if (…) { function n() {} }`): `ctx.GetVM().AddFunc` -/
+def scriptRunFn (w : World) (v : VMId) (n : Name) (id : Nat) : World :=
+  let r := addDef (bindParser w v) v .fn n (.stub id)
+  if r.2 then r.1 else throwControl r.1
+
+/-- `spl_autoload_register(callback cb)` -/
+def scriptAutoReg (w : World) (v : VMId) (cb : Nat) : World :=
+  let w := bindParser w v
+  w.setBase { w.base with autoload := w.base.autoload ++ [cb] }
+
+/-- `VM.GetOrLoadClass` / `TempVM.GetOrLoadClass` -/
+def getOrLoadClassOn (d : Disk) (w : World) : VMId → Name → World × Res
+  | .base, n => baseGetOrLoadClass d w n
+  | .temp i, n => tempGetOrLoadClass d w i n
+
+/-- the script needs class `n`: at parse time (`class Z extends n {}`, `class Z { use n; }`:
+an error makes `LoadAndRun` fail) or at run time (`new n`, `n::f()`: an error ends the script
+through `ThrowControl`). -/
+def scriptUse (d : Disk) (w : World) (v : VMId) (n : Name) (parseTime : Bool) : World × Res :=
+  let r := getOrLoadClassOn d (bindParser w v) v n
+  match r.2 with
+  | .ok _ => (r.1, .ok none)
+  | _ => if parseTime then (r.1, .err) else (throwControl r.1, .ok none)
+
+/-- `define('c', …)`: `SetConstant` of the base (constants are shared by design) -/
+def scriptDefine (w : World) (v : VMId) (c : Name) : World :=
+  let w := bindParser w v
+  if w.base.consts.contains c then throwControl w
+  else w.setBase { w.base with consts := c :: w.base.consts }
+
+/-- `class_alias(a, b)`: on the pinned tree it only answers whether the alias would be
+acceptable (`a` is a class, `b` is free); it declares nothing. -/
+def scriptAlias (d : Disk) (w : World) (v : VMId) (a b : Name) : World × Res :=
+  let w := bindParser w v
+  (w, if (getClass d w v a).isSome && (getClass d w v b).isNone && (getInterface w v b).isNone
+      then .ok none else .err)
+
 /-! ### operations of the exploration alphabet -/
 
 inductive Op where
@@ -334,6 +457,15 @@ inductive Op where
   | getOrLoadInterface (v : VMId) (n : Name)
   | loadPkg (v : VMId) (n : Name)
   | discard (i : Nat)                                 -- the request ends: a fresh TempVM takes the slot
+  -- definition routes of script code running on `v`
+  | evalCode (v : VMId) (u : File) (id : Nat)         -- `eval()` of the declarations of unit `u`
+  | incl (v : VMId) (f : File) (req : Bool)           -- `include` / `require`
+  | runFn (v : VMId) (n : Name) (id : Nat)            -- function statement executed at run time
+  | autoReg (v : VMId) (cb : Nat)                     -- `spl_autoload_register`
+  | useClass (v : VMId) (n : Name) (parseTime : Bool) -- `new` / `extends` / trait `use` / static call
+  | define (v : VMId) (c : Name)                      -- `define()`
+  | alias (v : VMId) (a b : Name)                     -- `class_alias`
+  | inert (v : VMId)                                  -- anonymous class, closure, `run_php_file` without compile mode
 deriving DecidableEq, Repr
 
 /-- the VM an operation is invoked on -/
@@ -341,6 +473,8 @@ def Op.via : Op → VMId
   | .add v _ _ _ | .loadAndRun v _ | .parseFile v _ | .getOrLoadClass v _
   | .getOrLoadInterface v _ | .loadPkg v _ => v
   | .discard i => .temp i
+  | .evalCode v _ _ | .incl v _ _ | .runFn v _ _ | .autoReg v _ | .useClass v _ _
+  | .define v _ | .alias v _ _ | .inert v => v
 
 def okIf (r : World × Bool) : World × Res := (r.1, if r.2 then .ok none else .err)
 
@@ -355,17 +489,30 @@ def step (d : Disk) (w : World) : Op → World × Res
   | .loadPkg .base n => baseLoadPkg d w n
   | .loadPkg (.temp i) n => tempLoadPkg d w i n
   | .discard i => (w.setTemp i {}, .ok none)
+  | .evalCode v u id => (scriptEval d w v u id, .ok none)
+  | .incl v f req => (scriptInclude d w v f req, .ok none)
+  | .runFn v n id => (scriptRunFn w v n id, .ok none)
+  | .autoReg v cb => (scriptAutoReg w v cb, .ok none)
+  | .useClass v n pt => scriptUse d w v n pt
+  | .define v c => (scriptDefine w v c, .ok none)
+  | .alias v a b => scriptAlias d w v a b
+  | .inert v => (bindParser w v, .ok none)
 
 def run (d : Disk) (ops : List Op) : World := ops.foldl (fun w op => (step d w op).1) {}
 
+/-- the base's autoloader has something to try for `n`: a class-path file or a registered callback -/
+def canAutoload (d : Disk) (w : World) (n : Name) : Bool :=
+  (d.find n).isSome || !w.base.autoload.isEmpty
+
 /-- The two routes of the pinned tree on which a TempVM reaches the base's autoloader
 (known finding C12-temp-autoload-through-base): the operation is invoked on a TempVM,
-neither the TempVM nor the base has the name, and the class path knows a file for it. -/
+neither the TempVM nor the base has the name, and the base's autoloader has something to
+try (a class-path file, or any registered autoload callback). -/
 def leaky (d : Disk) (w : World) : Op → Bool
   | .getOrLoadInterface (.temp i) n =>
-    ((w.temps i).ifaces.lookup n).isNone && (w.base.getInterface n).isNone && (d.find n).isSome
+    ((w.temps i).ifaces.lookup n).isNone && (w.base.getInterface n).isNone && canAutoload d w n
   | .loadPkg (.temp i) n =>
-    ((w.temps i).pkg n).isNone && (w.base.pkg n).isNone && (d.find n).isSome
+    ((w.temps i).pkg n).isNone && (w.base.pkg n).isNone && canAutoload d w n
   | _ => false
 
 end Model.Temp
